@@ -61,7 +61,8 @@ import (
 // ---------------------------------------------------------------- inputs
 
 type op struct {
-	K string `json:"k"`           // rewrite|trunc|rename|k8s|link|delete|reload|dir|rmparent
+	K string `json:"k"`           // rewrite|rewritem|rewrite2|trunc|rename|k8s|link|delete|reload|dir|rmparent|overflow
+	M int    `json:"m,omitempty"` // rewrite2: the content written first (the final content C follows at once)
 	C int    `json:"c"`           // content id; -1 = identical to the current content
 	V int    `json:"v,omitempty"` // variant bits: 1 = keep the old directory / delete only the target; 2 = leave the old target alone
 	P int    `json:"p,omitempty"` // pause before the operation (racing mode): 0, 1 = 50us, 2 = 2ms
@@ -329,6 +330,7 @@ type world struct {
 	nextIno            int
 	gone               []string // directories removed by the current operation
 	dead               []int    // config inodes destroyed by the current operation
+	mid                int      // content written first by a "rewrite2" that took effect (-1 none)
 	entryChanged       bool     // the current operation created, replaced or removed the config path's own directory entry
 }
 
@@ -381,7 +383,7 @@ func (w *world) dropK8sLink() {
 }
 
 func (w *world) apply(o op, pause func()) {
-	w.gone, w.dead, w.entryChanged = nil, nil, false
+	w.gone, w.dead, w.entryChanged, w.mid = nil, nil, false, -1
 	c := o.C
 	if c < 0 {
 		c = w.cur
@@ -437,14 +439,29 @@ func (w *world) apply(o op, pause func()) {
 		w.shape, w.target, w.targetDir, w.cur = shRegular, w.cfg, "", c
 		w.newIno()
 		return
-	case "rewrite", "trunc":
+	case "rewrite", "trunc", "rewritem", "rewrite2":
 		exists := w.shape == shRegular || w.shape == shK8s || w.shape == shLink
-		if o.K == "rewrite" && exists {
+		w.mid = -1
+		if o.K != "trunc" && exists {
 			f, err := os.OpenFile(w.cfg, os.O_WRONLY, 0)
 			must(err)
+			fi, err := f.Stat()
+			must(err)
+			if o.K == "rewrite2" {
+				// two same-size rewrites back to back (one clock tick on coarse timestamps)
+				_, err = f.WriteAt(contentBytes(o.M), 0)
+				must(err)
+				w.mid = o.M
+				pause()
+			}
 			_, err = f.WriteAt(b, 0)
 			must(err)
 			must(f.Close())
+			if o.K == "rewritem" {
+				// a writer that preserves timestamps (rsync --inplace --times, touch -r):
+				// same inode, same size, and the modification time of the previous content
+				must(os.Chtimes(w.cfg, fi.ModTime(), fi.ModTime()))
+			}
 		} else {
 			f, err := os.OpenFile(w.cfg, os.O_WRONLY|os.O_CREATE|os.O_TRUNC, 0o644)
 			must(err)
@@ -463,7 +480,7 @@ func (w *world) apply(o op, pause func()) {
 			}
 		}
 		w.cur = c
-	case "rename":
+	case "rename", "overflow":
 		tmp := filepath.Join(w.d, fmt.Sprintf(".tmp-%d", w.next()))
 		writeFile(tmp, b)
 		pause()
@@ -719,10 +736,12 @@ func setup(in input) *runner {
 // rounds: an inode unlinked while the loop still had it open is destroyed (and
 // its watch dropped) only when the loop closes it, i.e. possibly after the
 // first sentinel was queued.
-func (r *runner) settle() bool {
+func (r *runner) settle() bool { return r.settleWith(4, 15*time.Second) }
+
+func (r *runner) settleWith(attempts int, each time.Duration) bool {
 	for round := 0; round < 2; round++ {
 		ok := false
-		for attempt := 0; attempt < 4 && !ok; attempt++ {
+		for attempt := 0; attempt < attempts && !ok; attempt++ {
 			r.sentN++
 			name := filepath.Join(r.w.sent, fmt.Sprintf("s%d", r.sentN))
 			ch := make(chan struct{})
@@ -733,7 +752,7 @@ func (r *runner) settle() bool {
 			select {
 			case <-ch:
 				ok = true
-			case <-time.After(15 * time.Second):
+			case <-time.After(each):
 			}
 		}
 		if !ok {
@@ -741,6 +760,36 @@ func (r *runner) settle() bool {
 		}
 	}
 	return true
+}
+
+// maxQueuedEvents is the kernel's per-instance inotify queue limit.
+func maxQueuedEvents() int {
+	b, err := os.ReadFile("/proc/sys/fs/inotify/max_queued_events")
+	n := 16384
+	if err == nil {
+		fmt.Sscanf(strings.TrimSpace(string(b)), "%d", &n)
+	}
+	return n
+}
+
+// flood generates more events on unrelated files of the config directory than
+// the kernel queue plus fsnotify's read buffer can hold (alternating files, so
+// that consecutive events are not merged).
+func (r *runner) flood() {
+	var fs [2]*os.File
+	for i := range fs {
+		f, err := os.OpenFile(filepath.Join(r.w.d, fmt.Sprintf(".flood-%d", i)), os.O_WRONLY|os.O_CREATE, 0o644)
+		must(err)
+		fs[i] = f
+	}
+	n := maxQueuedEvents() + 4096 + 4000
+	for i := 0; i < n; i++ {
+		_, err := fs[i%2].WriteAt([]byte{byte(i)}, 0)
+		must(err)
+	}
+	for _, f := range fs {
+		f.Close()
+	}
 }
 
 func (r *runner) takeEvents() []string {
@@ -851,7 +900,8 @@ func optN(v int) string {
 
 func opTerm(o op) string {
 	k := map[string]string{"rewrite": "ORewrite", "trunc": "OTrunc", "rename": "ORename", "k8s": "OK8s",
-		"link": "OLink", "delete": "ODelete", "reload": "OReload", "dir": "ODir", "rmparent": "ORmParent"}[o.K]
+		"link": "OLink", "delete": "ODelete", "reload": "OReload", "dir": "ODir", "rmparent": "ORmParent",
+		"rewritem": "ORewriteM", "rewrite2": "ORewrite2", "overflow": "OOverflow"}[o.K]
 	return k
 }
 
@@ -920,9 +970,9 @@ func runQuiescentOnce(in input) (driver.Result, bool) {
 		for _, x := range w.dead {
 			deadTerms = append(deadTerms, fmt.Sprint(x))
 		}
-		steps = append(steps, fmt.Sprintf("mkStep %s %s %s %s %d %s %s %s %s %s %d %d %d %s %s",
+		steps = append(steps, fmt.Sprintf("mkStep %s %s %s %s %d %s %s %s %s %s %s %d %d %d %s %s",
 			term, coqRead(kind, cid), optPath(w, exists, resolved), optPath(w, lok, lres), w.ino, coqfmt.List(deadTerms), coqfmt.List(goneTerms),
-			coqfmt.Bool(transient), coqfmt.List(evTerms), w.symList(r.ws.VerifWatchList()),
+			coqfmt.Bool(transient), optN(w.mid), coqfmt.List(evTerms), w.symList(r.ws.VerifWatchList()),
 			ob.nvals, ob.nerrs, ob.nio, optN(ob.last), coqfmt.Bool(ob.lastErr)))
 		if ob.nio > prevNio {
 			res.Tags = append(res.Tags, "q-io-error-reported")
@@ -943,20 +993,21 @@ func runQuiescentOnce(in input) (driver.Result, bool) {
 		return true
 	}
 	// the state once the loop has taken its first pass after Watch()
-	w.gone, w.dead = nil, nil
+	w.gone, w.dead, w.mid = nil, nil, -1
 	ino0 := w.ino
 	ok := record("OStart", op{K: "start"}, false)
 	for _, o := range in.Ops[early(in):] {
 		if !ok {
 			break
 		}
-		if o.K == "rmparent" {
-			continue // racing mode only: watches on the config directory itself die with it
+		if o.K == "rmparent" || o.K == "overflow" {
+			continue // racing / window mode only
 		}
 		prevShape := w.shape
 		w.apply(o, func() {})
 		// an operation may let the loop read a transient state (empty file)
-		transient := o.K == "trunc" || (o.K == "rewrite" && !(prevShape == shRegular || prevShape == shK8s || prevShape == shLink))
+		transient := o.K == "trunc" || ((o.K == "rewrite" || o.K == "rewritem" || o.K == "rewrite2") &&
+			!(prevShape == shRegular || prevShape == shK8s || prevShape == shLink))
 
 		ok = record(opTerm(o), o, transient)
 		kinds[o.K] = true
@@ -997,6 +1048,9 @@ func runRacing(in input) driver.Result {
 		}
 		if w.cur < firstInvalid {
 			valid[w.cur] = true
+		}
+		if w.mid >= 0 && w.mid < firstInvalid {
+			valid[w.mid] = true
 		}
 		if w.cur != before {
 			changes++
@@ -1090,8 +1144,19 @@ func runWindow(in input) driver.Result {
 	var points []string
 	kinds := map[string]bool{}
 	heldN := 0
+	overflowed := false
 	point := func() bool {
-		if !r.settle() {
+		settled := false
+		if overflowed {
+			// a sentinel created while the queue is still full is dropped as well
+			overflowed = false
+			time.Sleep(100 * time.Millisecond)
+			settled = r.settleWith(30, time.Second)
+			r.takeEvents()
+		} else {
+			settled = r.settle()
+		}
+		if !settled {
 			fail("watch loop unresponsive (sentinel event never received)")
 			return false
 		}
@@ -1107,6 +1172,24 @@ func runWindow(in input) driver.Result {
 		if o.K == "rmparent" {
 			return true
 		}
+		if o.K == "overflow" && maxQueuedEvents() <= 70000 {
+			// park the loop inside a pass (explicit reload), overflow the inotify
+			// queue, let the final rename-over land while the queue is full
+			r.hold.arm()
+			if !r.sendReload() {
+				fail("watch loop did not take an explicit reload within 15s")
+				return false
+			}
+			if r.hold.waitHeld(2 * time.Second) {
+				r.flood()
+				w.apply(o, func() {})
+				close(r.hold.release)
+				overflowed = true
+				kinds[o.K] = true
+				res.Tags = append(res.Tags, "w-op-overflow")
+				return true
+			}
+		}
 		w.apply(o, func() {})
 		kinds[o.K] = true
 		res.Tags = append(res.Tags, "w-op-"+o.K)
@@ -1119,7 +1202,7 @@ func runWindow(in input) driver.Result {
 	ok := point()
 	ops := in.Ops[early(in):]
 	for i := 0; ok && i < len(ops); i++ {
-		if ops[i].H && i+1 < len(ops) && ops[i+1].K != "reload" {
+		if ops[i].H && i+1 < len(ops) && ops[i+1].K != "reload" && ops[i].K != "overflow" && ops[i+1].K != "overflow" {
 			r.hold.arm()
 			ok = do(ops[i])
 			if ok && r.hold.waitHeld(300*time.Millisecond) {
@@ -1171,9 +1254,13 @@ func genOps(r *coqfmt.Rng, maxOps int) []op {
 	nextC := 1
 	for i := range ops {
 		var o op
-		switch x := r.Intn(21); {
+		switch x := r.Intn(24); {
 		case x == 20:
 			o.K = "dir"
+		case x == 21 || x == 22:
+			o.K = "rewritem"
+		case x == 23:
+			o.K = "rewrite2"
 		case x < 4:
 			o.K = "rewrite"
 		case x < 6:
@@ -1202,6 +1289,14 @@ func genOps(r *coqfmt.Rng, maxOps int) []op {
 		}
 		o.V = r.Intn(4)
 		o.P = r.Intn(3)
+		if o.K == "rewrite2" {
+			if r.Chance(3, 4) {
+				o.M = nextC
+				nextC++
+			} else {
+				o.M = firstInvalid + r.Intn(8)
+			}
+		}
 		ops[i] = o
 	}
 	return ops
@@ -1219,6 +1314,14 @@ func gen(r *coqfmt.Rng, n int, tier string) []json.RawMessage {
 			in.Mode, in.Backend = "w", "args"
 			for j := range in.Ops {
 				in.Ops[j].H = r.Chance(1, 2)
+			}
+			if i%80 == 3 {
+				// inotify queue overflow while the final change lands
+				j := r.Intn(len(in.Ops))
+				in.Ops[j].K = "overflow"
+				if in.Ops[j].C < 0 {
+					in.Ops[j].C = 1
+				}
 			}
 			b, _ := json.Marshal(in)
 			out = append(out, b)
@@ -1299,6 +1402,13 @@ func corpus() []json.RawMessage {
 	add(input{Mode: "w", Backend: "args", Layout: 0, Ops: []op{{K: "link", C: 1, H: true}, {K: "rewrite", C: 2}, {K: "rewrite", C: 3}}})
 	add(input{Mode: "w", Backend: "args", Layout: 0, Ops: []op{{K: "link", C: 1, H: true}, {K: "delete", V: 1}, {K: "trunc", C: 2}, {K: "rewrite", C: 3}}})
 	add(input{Mode: "w", Backend: "args", Layout: 1, Ops: []op{{K: "k8s", C: 1, V: 2, H: true}, {K: "delete", V: 1}, {K: "trunc", C: 2}, {K: "k8s", C: 3, H: true}, {K: "rewrite", C: 4}}})
+	// in-place rewrite that restores the previous modification time; two rewrites back to back
+	add(input{Mode: "q", Backend: "args", Layout: 0, Ops: []op{{K: "rewrite", C: 1}, {K: "rewritem", C: 2}, {K: "rewritem", C: 3}, {K: "rewrite2", M: 4, C: 5}, {K: "rewritem", C: 101}, {K: "rewritem", C: 6}}})
+	add(input{Mode: "q", Backend: "args", Layout: 3, Ops: []op{{K: "rewritem", C: 1}, {K: "rewritem", C: 2}, {K: "rewrite2", M: 102, C: 3}}})
+	add(input{Mode: "r", Backend: "dials", Layout: 1, Ops: []op{{K: "rewritem", C: 1, P: 2}, {K: "rewritem", C: 2, P: 2}, {K: "rewritem", C: 3, P: 2}}})
+	// inotify queue overflow while the loop is parked in a pass; the final rename-over is among the dropped events
+	add(input{Mode: "w", Backend: "args", Layout: 0, Ops: []op{{K: "rewrite", C: 1}, {K: "overflow", C: 2}}})
+	add(input{Mode: "w", Backend: "args", Layout: 3, Ops: []op{{K: "overflow", C: 1}, {K: "rewrite", C: 2}}})
 	// a change between the initial Value() and Watch()
 	add(input{Mode: "q", Backend: "args", Layout: 0, Early: 1, Ops: []op{{K: "rename", C: 3}, {K: "rewrite", C: 4}}})
 	add(input{Mode: "q", Backend: "args", Layout: 3, Early: 2, Ops: []op{{K: "rewrite", C: 3}, {K: "k8s", C: 4}, {K: "rename", C: 5}}})
